@@ -113,6 +113,8 @@ enum Case {
     ArgOneLane { pos: usize, li: usize, lane: usize },
     /// all float arguments uniformly (li1 for the first, li2 for the rest)
     Product { li1: usize, li2: usize },
+    /// two float elements anywhere in the argument list get (different) lattice values, the rest ordinary
+    TwoLanes { k: usize },
     /// every float element drawn independently from the swarm mix
     Sample { k: usize },
 }
@@ -120,10 +122,16 @@ enum Case {
 fn cases_of(op: &OpDesc, samples: usize) -> Vec<Case> {
     let mut v = Vec::new();
     let fpos: Vec<usize> = (0..op.args.len()).filter(|i| op.args[*i].is_float_bearing()).collect();
+    // element counts are a property of the type, not of the value: probe with a throw-away value
+    let mut probe_rng = Rng::new(0, "c18p-probe", 0);
     for &pos in &fpos {
+        let cnt = float_elem_count(&gen_arg(op, pos, &mut probe_rng, Cls::Ordinary)).max(1);
         for li in 0..NUM_F_LATTICE {
             v.push(Case::ArgUniform { pos, li });
-            v.push(Case::ArgOneLane { pos, li, lane: li });
+            // every (element, lattice value) pair, the other elements ordinary
+            for lane in 0..cnt.min(16) {
+                v.push(Case::ArgOneLane { pos, li, lane });
+            }
         }
     }
     if !fpos.is_empty() {
@@ -140,12 +148,27 @@ fn cases_of(op: &OpDesc, samples: usize) -> Vec<Case> {
     for k in 0..ns {
         v.push(Case::Sample { k });
     }
+    if !fpos.is_empty() {
+        for k in 0..ns {
+            v.push(Case::TwoLanes { k });
+        }
+    }
     v
 }
 
 fn make_args(op: &OpDesc, oi: usize, case: &Case, ci: usize, seed: u64) -> Vec<Val> {
     let mut rng = Rng::new(seed, "c18p-args", (oi as u64) << 24 | ci as u64);
     let fpos: Vec<usize> = (0..op.args.len()).filter(|i| op.args[*i].is_float_bearing()).collect();
+    if let Case::TwoLanes { .. } = case {
+        let mut args: Vec<Val> = (0..op.args.len()).map(|i| gen_arg(op, i, &mut rng, Cls::Ordinary)).collect();
+        for _ in 0..2 {
+            let i = *rng.pick(&fpos);
+            let cnt = float_elem_count(&args[i]).max(1);
+            let mut k = rng.below(cnt) as isize;
+            args[i] = set_float_elem(&args[i], &mut k, Some(rng.below(NUM_F_LATTICE)));
+        }
+        return args;
+    }
     (0..op.args.len())
         .map(|i| match case {
             Case::ArgUniform { pos, li } if *pos == i => gen_arg(op, i, &mut rng, Cls::Lattice(*li)),
@@ -244,7 +267,7 @@ fn sweep_op(oi: usize, seed: u64, samples: usize) -> OpResult {
         if seen.insert(d.finish()) {
             res.distinct += 1;
         }
-        if !matches!(case, Case::Sample { .. }) {
+        if !matches!(case, Case::Sample { .. } | Case::TwoLanes { .. }) {
             res.lattice_hits += 1;
         }
         res.evals += 1;
